@@ -269,6 +269,14 @@ func escapeBytesCase(s []byte, emit func(Case)) {
 	if e := perLineErr(eb, realRedact, realStrip); e != "" {
 		orc = append(orc, "EscapeBytes: "+e)
 	}
+	// the public EscapeMarkers: markers become '?', every other byte (valid UTF-8 or not) is left alone
+	em := markers.EscapeMarkers(cp(s))
+	if !bytes.Equal(em, escQ(s)) {
+		orc = append(orc, fmt.Sprintf("EscapeMarkers(b) = %x, want b with each marker replaced by '?' = %x", em, escQ(s)))
+	}
+	if !bytes.Equal(markers.EscapeMarkers(cp(em)), em) {
+		orc = append(orc, "EscapeMarkers is not idempotent")
+	}
 	// escaping is idempotent: EscapeMarkers∘EscapeMarkers, and safe-mode escape twice
 	e1 := escape.InternalEscapeBytes(cp(s), 0, false, false)
 	e2 := escape.InternalEscapeBytes(cp(e1), 0, false, false)
